@@ -59,6 +59,15 @@ def check_table(ctx, case):
     k, seed = case["k"], case["seed"]
     n = 4 ** k
     g0 = guards.globals_digest()
+    if seed is not None and k <= 5:
+        # the same seed as a numpy integer scalar (seeds drawn from arrays): must give the table of the plain int
+        plain = monitored(dsw.create_random_shuffles, 200 * n + 5000, k, seed)
+        for typ in (np.int64, np.uint32):
+            alt = monitored(dsw.create_random_shuffles, 200 * n + 5000, k, typ(seed))
+            if plain.kind == "ok" and (alt.kind != "ok" or not np.array_equal(np.asarray(alt.value), np.asarray(plain.value))):
+                ctx.fail("same-seed-different-table", "create_random_shuffles(%d, %s(%d)) %s" % (
+                    k, typ.__name__, seed, alt.describe() if alt.kind != "ok" else "differs from the table of the plain int seed"))
+        ctx.cls("seed passed as a numpy integer")
     with guards.audited() as ev:
         out = monitored(dsw.create_random_shuffles, 200 * n + 5000, k, seed)
     if out.kind != "ok":
@@ -208,7 +217,7 @@ def floors(agg, tier):
                        ("pattern size 3", 96), ("pattern size 4", 24), ("fast-mode pattern", 168)):
         if c.get(name, 0) < need:
             out.append("%s observed %d < %d" % (name, c.get(name, 0), need))
-    for name, need in (("same seed requested again after the first table was scrambled", 100), ("induced map re-checked after an in-place edit", 300)):
+    for name, need in (("seed passed as a numpy integer", 50), ("same seed requested again after the first table was scrambled", 100), ("induced map re-checked after an in-place edit", 300)):
         if c.get(name, 0) < need:
             out.append("%s observed %d < %d" % (name, c.get(name, 0), need))
     if len(agg["sets"].get("distinct-rows", ())) < 24:
